@@ -7,6 +7,8 @@ import numpy as np
 import tprog, gen_dag
 from common import fbits, show_floats, show_ints
 
+import formulas, formula_cases
+
 PROP = 'C02'
 LEAN_TARGETS = ['Props.C02']
 REQUIRED_THEOREMS = ['Props.C02.linear_vjp', 'Props.C02.mse_vjp', 'Props.C02.nll_vjp', 'Props.C02.dropout_vjp', 'Props.C02.conv1d_vjp', 'Props.C02.conv2d_vjp',
@@ -80,8 +82,20 @@ def bnseq_case(rng):
             'desc': ' ; '.join(lines)[:600]}
 
 
+FORMULA_THEOREMS = ['src_relu_vjp', 'src_relu_subgradient_at_kink', 'src_leaky_relu_vjp', 'src_selu_vjp', 'src_tanh_vjp', 'src_sigmoid_vjp', 'src_mse_vjp',
+                    'src_bce_vjp', 'src_bce_logits_vjp_within_eps', 'model_applies_src_relu', 'model_applies_src_leaky_relu', 'model_applies_src_selu',
+                    'model_applies_src_tanh', 'model_applies_src_sigmoid', 'model_applies_src_mse', 'model_scalars_are_src_bce']
+REQUIRED_THEOREMS += ['Props.C02.' + t for t in FORMULA_THEOREMS]
+
+
+def extract():
+    """see props/c01.py: the activation / loss formulas are re-read from cpu_ops.py on every run"""
+    return formulas.write()[0]
+
+
 def cases(rng, tier):
     out = []
+    out += formula_cases.cases(rng, tier, PROP)
     gen_ops.WIDE_LEVELS = True
     per = 14 if tier == 'quick' else 400
     for op in gen_ops.OPS_NN:
@@ -106,6 +120,8 @@ def cases(rng, tier):
 
 
 def impl(c):
+    if c.get('kind') == 'formula':
+        return formula_cases.impl(c)
     if c.get('kind') == 'fanout':
         return tprog.run_program(c['lines'])
     if c.get('kind') == 'bnseq':
@@ -118,6 +134,8 @@ def impl(c):
 
 
 def oracle(c):
+    if c.get('kind') == 'formula':
+        return None
     if c.get('kind') == 'fanout':
         from props import c03
         f = c03.oracle(c)
@@ -144,7 +162,9 @@ def oracle(c):
     return base.oracle(c)
 
 
-def rerun_known(k): return oracle(_fix(k['witness'])) is not None
+def rerun_known(k):
+    if k['witness'].get('kind') == 'formula-pair': return formula_cases.replay_pair(k['witness'])['fails']
+    return oracle(_fix(k['witness'])) is not None
 def _fix(c):
     if c.get('kind') == 'fanout':
         from props import c03
@@ -152,11 +172,14 @@ def _fix(c):
         return d
     return c if c.get('kind') == 'bnseq' else base._fix(c)
 def replay(fail):
+    if fail['case'].get('kind') == 'formula-pair':
+        return formula_cases.replay_pair(fail['case'])
     f = oracle(_fix(fail['case']))
     return {'fails': f is not None, 'now': f}
 
 
 def search(rng, tier):
+    yield from formula_cases.pair_search(rng, tier, PROP)
     for op in gen_ops.OPS_NN:
         for _ in range(10):
             c = base.finish(base.build(rng, op, False, gen_ops.gen_nn), rng)
